@@ -122,4 +122,92 @@ def dataSet (k : Nat) : SetB :=
 example : let st : ExpState := { seq := 4294967295, templates := [(256, { fieldCount := 1, minLen := 1 })] }
     (sendAll 0 st [dataSet 3, dataSet 2]).1.seq = 4 ∧ (sendAll 0 st [dataSet 3, dataSet 2]).2.all isOk = true := by decide
 
+/-! ## The header of every transmitted message -/
+
+/-- the 16 header bytes of a message CreateIPFIXMsg builds: version 10, the message's own length,
+    export time, sequence number and observation domain exactly as passed -/
+theorem createMsg_header (s : SetB) (hi : C16.Inv s) (dom seq time : Nat) (w : Bytes)
+    (h : createMsg s dom seq time = some w) : w.take 16 = msgHeader w.length time seq dom := by
+  obtain ⟨hlen, _⟩ := C16.createMsg_length s hi dom seq time w h
+  unfold createMsg at h
+  split at h
+  · cases h
+  · simp only [Option.some.injEq] at h
+    have h16 : Generated.cMsgHeaderLength = 16 := rfl
+    rw [hlen, ← h, h16]
+    rw [List.take_append_of_le_length (by rw [C16.msgHeader_length]; exact Nat.le_refl _)]
+    exact List.take_of_length_le (by rw [C16.msgHeader_length]; exact Nat.le_refl _)
+
+/-- every successful SendSet: the header of the one message written carries the reported byte count,
+    the export time handed in, the exporter's NEW counter value and the configured domain -/
+theorem sent_header (st st' : ExpState) (time : Nat) (s : SetB) (hi : C16.Inv s) (n : Nat) (w : Bytes)
+    (h : st.sendBuilt time s = (st', .ok n w)) : w.take 16 = msgHeader n time st'.seq st.dom := by
+  obtain ⟨hn, _, _, hc⟩ := send_ok st st' time s n w h
+  have hi' : C16.Inv s.updateLen := C16.inv_step s .updateLen hi
+  rw [hn]
+  exact createMsg_header s.updateLen hi' st.dom st'.seq time w hc
+
+/-- C08, per message: the sequence number in EACH transmitted message of a session of successful
+    sends equals the start value plus the number of data records carried by all data messages
+    transmitted so far INCLUDING that message, modulo 2^32; the same header carries the message's
+    own byte count (which is also the count reported to the caller), the export time and the
+    configured observation domain -/
+theorem seq_in_every_message (time : Nat) (st : ExpState) (sets : List SetB) (hseq : st.seq < 4294967296)
+    (hinv : ∀ s ∈ sets, C16.Inv s) (hall : (sendAll time st sets).2.all isOk = true)
+    (i : Nat) (hi : i < sets.length) :
+    ∃ n w, (sendAll time st sets).2[i]? = some (.ok n w) ∧ n = w.length ∧
+      w.take 16 = msgHeader n time ((st.seq + dataRecords (sets.take (i + 1))) % 4294967296) st.dom := by
+  induction sets generalizing st i with
+  | nil => simp at hi
+  | cons s rest ih =>
+    simp only [sendAll, List.all_cons, Bool.and_eq_true] at hall ⊢
+    obtain ⟨h1, h2⟩ := hall
+    cases hr : st.sendBuilt time s with
+    | mk st1 r1 =>
+      simp only [hr] at h1 h2 ⊢
+      cases r1 with
+      | err => simp [isOk] at h1
+      | ok n w =>
+        obtain ⟨hn, hdom, hs1, _⟩ := send_ok st st1 time s n w hr
+        have hhd := sent_header st st1 time s (hinv s (by simp)) n w hr
+        have hlt : st1.seq < 4294967296 := by
+          rw [hs1]; split
+          · exact Nat.mod_lt _ (by decide)
+          · exact hseq
+        cases i with
+        | zero =>
+          refine ⟨n, w, by simp, hn, ?_⟩
+          rw [hhd, hs1]
+          by_cases hd : s.ty = .data
+          · simp [hd, dataRecords]
+          · simp [hd, dataRecords, Nat.mod_eq_of_lt hseq]
+        | succ j =>
+          obtain ⟨n', w', hget, hn', hh⟩ := ih st1 hlt (fun x hx => hinv x (by simp [hx])) h2 j
+            (by simpa using hi)
+          refine ⟨n', w', by simpa using hget, hn', ?_⟩
+          rw [hh, hdom, hs1]
+          congr 1
+          by_cases hd : s.ty = .data
+          · simp only [hd, if_true, List.take_succ_cons, dataRecords, List.filter_cons, decide_true,
+              List.map_cons, List.sum_cons]
+            rw [Nat.mod_add_mod]
+            congr 1
+            omega
+          · simp [hd, dataRecords]
+
+/-- the per-message law on the wrap-crossing session: the first message (3 records, sent at counter
+    2^32 - 1) is stamped 2, the second (2 more records) is stamped 4 -/
+example : let st : ExpState := { seq := 4294967295, templates := [(256, { fieldCount := 1, minLen := 1 })] }
+    ∀ i, i < 2 → ∃ n w, (sendAll 0 st [dataSet 3, dataSet 2]).2[i]? = some (.ok n w) ∧ n = w.length ∧
+      w.take 16 = msgHeader n 0 ((4294967295 + dataRecords ([dataSet 3, dataSet 2].take (i + 1))) % 4294967296) 0 := by
+  intro st i hi
+  exact seq_in_every_message 0 st [dataSet 3, dataSet 2] (by decide)
+    (by intro s hs; simp at hs; rcases hs with rfl | rfl <;> simp [C16.Inv, dataSet, Rec.length])
+    (by decide) i hi
+example : let st : ExpState := { seq := 4294967295, templates := [(256, { fieldCount := 1, minLen := 1 })] }
+    ((sendAll 0 st [dataSet 3, dataSet 2]).2.map fun r => match r with
+      | .ok n w => (n, w.take 16) | .err => (0, [])) =
+    [(23, msgHeader 23 0 2 0), (22, msgHeader 22 0 4 0)] := by decide
+
+
 end Ipfix.C08
